@@ -77,7 +77,7 @@ def _constructor_loader(tp):
             return tp(data)
         except ValueError as e:  # including AddressValueError and NetmaskValueError
             raise ValueLoadError(str(e), data)
-        except (TypeError, AttributeError):
+        except (TypeError, AttributeError, IndexError):  # IndexError: an empty tuple given to a network constructor
             raise TypeLoadError(str, data)
 
     return constructor_loader
